@@ -16,6 +16,8 @@ for mp in sorted(glob.glob(os.path.join(os.path.dirname(os.path.dirname(os.path.
                 what = line[:110]
                 break
     res = "missed" if not m.get("detected") else ("VIOLATION + failing input" if m.get("detected_with_failing_input") else "VIOLATION no-failing-input-found")
+    for oc, ov in (m.get("other_checks") or {}).items():
+        res += f"; reported by ./check {oc}: {ov}"
     suite = m.get("suite")
     if m.get("stale"):
         res += f" (last verified at /repo {m.get('repo_head')}; patch no longer applies to the repaired code)"
